@@ -2,6 +2,7 @@ import flowpaths.stdag as stdag
 import networkx as nx
 from collections import deque 
 import flowpaths.utils as utils
+import flowpaths.utils.graphutils as gu
 
 def compute_inexact_flow_decomp_safe_paths(
     G: nx.DiGraph, 
@@ -202,6 +203,12 @@ def compute_flow_decomp_safe_paths(
 
     stG = stdag.stDAG(G)
     decomp_paths = stG.decompose_using_max_bottleneck(flow_attr)[0]
+    # Excess flows are sums and differences of the flow values: they are computed over plain Python numbers
+    # (numpy integers of a small width wrap around), on a copy that leaves the caller's graph alone
+    G = nx.DiGraph(G)
+    for _, _, data in G.edges(data=True):
+        if flow_attr in data:
+            data[flow_attr] = gu.plain_number(data[flow_attr])
     return compute_inexact_flow_decomp_safe_paths(
         G = G, 
         lowerbound_attr = flow_attr, 
